@@ -157,7 +157,7 @@ def tailDelta (g : Gen) (axis : List Rat) (x : Rat) : Rat :=
 
 /-- THE DECISION "the float sum of the densities is positive and finite" (specification side, nothing of the
 implementation is looked at): `robust` = at the axis point of largest modelled density, and at that point moved
-by `± tailDelta`, every product of a sub-collection of the factors lies in `[64·2⁻¹⁰⁷⁴, 2¹⁰⁰⁰]`
+by `± tailDelta`, every product of a sub-collection of the factors lies in `[8·2⁻¹⁰⁷⁴, 2¹⁰⁰⁰]`
 (`robustFactors`, `robustFactors_spec`); `overflow` = at some axis point a factor leaves the domain of its
 function, a sub-product exceeds `2¹⁰⁰⁰` (an `inf` may appear, and `inf · 0 = nan`) or an operand inside a factor
 (`aux`) leaves `[2⁻¹⁰⁰⁰, 2¹⁰⁰⁰]`. -/
